@@ -265,8 +265,13 @@ def _pop_relation(ctx):
     # idiom 2: relation in the while test
     conj = lp.test.values if isinstance(lp.test, ast.BoolOp) and isinstance(
         lp.test.op, ast.And) else [lp.test]
+    NEG = {'new>top': 'new<=top', 'new>=top': 'new<top',
+           'new<=top': 'new>top', 'new<top': 'new>=top'}
     for c in conj:
-        r = rel(c)
+        if isinstance(c, ast.UnaryOp) and isinstance(c.op, ast.Not):
+            r = NEG.get(rel(c.operand))
+        else:
+            r = rel(c)
         if r == 'new<=top':
             return 'ge', lp, set()
         if r == 'new<top':
@@ -391,10 +396,11 @@ def rule_unary(ctx):
                 function='Operator.update_name', line=f.lineno)
     # the rewrite only applies to + and -
     rr.instances += 1
-    guards = [n for n in own_nodes(f) if isinstance(n, ast.If) and isinstance(
-        n.test, ast.Compare) and isinstance(n.test.ops[0], ast.In)
-        and isinstance(n.test.comparators[0], ast.Constant)]
-    if guards and set(guards[0].test.comparators[0].value) == {'+', '-'}:
+    rewrites = [n for n in own_nodes(f) if isinstance(n, ast.Assign) and any(
+        isinstance(t, ast.Subscript) and isinstance(t.slice, ast.Constant)
+        and t.slice.value == 'name' for t in n.targets)]
+    chars = TL._enclosing_in_guard(f, rewrites[0]) if rewrites else None
+    if chars == {'+', '-'}:
         rr.ok("only '+' and '-' are candidates for the unary rewrite", OP)
     else:
         rr.fail(key_of(f, 'unary candidates'),
@@ -458,8 +464,29 @@ def rule_empty(ctx):
                 out.append(n)
         return out
 
+    def expand_flags(f, tests):
+        """Text of the tests, with a flag variable replaced by the values it
+        is given and the tests under which it is given them."""
+        parts = []
+        for t in tests:
+            parts.append(norm_src(t))
+            for x in ast.walk(t):
+                if isinstance(x, ast.Name):
+                    for n in own_nodes(f):
+                        if isinstance(n, ast.If):
+                            for s_ in n.body + n.orelse:
+                                if isinstance(s_, ast.Assign) and any(
+                                        isinstance(tt, ast.Name) and
+                                        tt.id == x.id for tt in s_.targets):
+                                    parts.append(norm_src(n.test))
+                                    parts.append(norm_src(s_.value))
+                    for tt, vv, _s in assign_pairs(f):
+                        if isinstance(tt, ast.Name) and tt.id == x.id:
+                            parts.append(norm_src(vv))
+        return ' '.join(parts)
+
     gs = empty_guards(sep)
-    txt = ' '.join(norm_src(g.test) for g in gs)
+    txt = expand_flags(sep, [g.test for g in gs])
     rr.instances = 3
     if 'isinstance(lt, Separator)' in txt or ('Separator' in txt and
                                              'isinstance' in txt):
